@@ -1004,7 +1004,7 @@ class Interp:
             res = self.ite(c, v, res)
         return res
 
-    def spec_bool(self, expr, st, extra=None):
+    def spec_bool(self, expr, st, extra=None, locals_visible=True):
         """boolean specification expression -> z3 formula (all paths merged)"""
         if isinstance(expr, str):
             expr = ast.parse(expr.strip(), mode='eval').body
@@ -1170,6 +1170,10 @@ class Interp:
         if isinstance(fv, type):
             yield from self.construct(fv, args, kwargs, st, node)
             return
+        if isinstance(fv, types.FunctionType) and getattr(fv, '_opaque', False) and not self.ctx.reveal_depth \
+                and not self.ctx.concrete_math:
+            yield self.opaque_app(fv, args, kwargs, node), st
+            return
         if isinstance(fv, types.FunctionType):
             info = self.index.info_for_pyfunc(fv)
             if info is None:
@@ -1191,6 +1195,37 @@ class Interp:
             yield from self.call_dunder(fv, '__call__', args, st, node)
             return
         self.err(node, f'call of {fv!r}')
+
+    def opaque_uf(self, fv):
+        info = self.index.info_for_pyfunc(fv)
+        n = len(info.node.args.args)
+        key = fv.__name__
+        if key not in self.ctx.opaque_ufs:
+            self.ctx.opaque_ufs[key] = (z3.Function(key, *([z3.RealSort()] * n + [z3.BoolSort()])), fv, n)
+        return self.ctx.opaque_ufs[key][0]
+
+    def opaque_app(self, fv, args, kwargs, node):
+        if kwargs:
+            self.err(node, 'keyword arguments to an opaque predicate')
+        uf = self.opaque_uf(fv)
+        return mk_bool(uf(*[zreal(a) for a in args]))
+
+    def reveal_axiom(self, fv, st):
+        """forall args. P(args) == definition(args), instantiated by pattern P(args) only"""
+        uf = self.opaque_uf(fv)
+        info = self.index.info_for_pyfunc(fv)
+        names = [a.arg for a in info.node.args.args]
+        vs = [z3.Real(self.ctx.fresh_name(f'rv_{n}')) for n in names]
+        call = ast.parse(f'__p({", ".join("__a%d" % i for i in range(len(vs)))})', mode='eval').body
+        extra = {'__p': fv}
+        extra.update({f'__a{i}': SNum(v) for i, v in enumerate(vs)})
+        self.ctx.reveal_depth += 1
+        try:
+            body = self.spec_bool(call, st, extra=extra)
+        finally:
+            self.ctx.reveal_depth -= 1
+        app = uf(*vs)
+        return z3.ForAll(vs, app == body, patterns=[app])
 
     def bind_args(self, argspec, args, kwargs, defaults, kwdefaults, node, fname):
         """Python argument binding.  defaults: list aligned to the tail of positional params."""
